@@ -95,8 +95,20 @@ def gen_members(rng, nmax=60):
             # regular files may carry the old-style NUL type flag or the 'contiguous file' flag
             m["typeflag"] = rng.choice([b"0", b"0", b"0", b"\0", b"7"])
         members.append(m)
+    # visor members that point back at (a slice of) the inline data of an earlier ordinary member
+    stds = [i for i, m in enumerate(members) if m["kind"] == "std" and len(m["data"]) >= 2]
+    for i, m in enumerate(members):
+        earlier = [s_ for s_ in stds if s_ < i]
+        if m["kind"] == "file" and earlier and rng.random() < 0.15:
+            src = rng.choice(earlier)
+            sd = members[src]["data"]
+            delta = rng.choice([0, 0, rng.randrange(0, len(sd))])
+            if delta == 0 and rng.random() < 0.3:
+                continue  # offset 0 into the blob is fine, but keep some variety
+            m["alias_of"], m["alias_delta"] = src, delta
+            m["data"] = sd[delta : delta + rng.randrange(1, len(sd) - delta + 1)]
     # two members sharing one (equal) data area
-    files = [i for i, m in enumerate(members) if m["kind"] == "file"]
+    files = [i for i, m in enumerate(members) if m["kind"] == "file" and m.get("alias_of") is None]
     if len(files) >= 2 and rng.random() < 0.3:
         a, b = rng.sample(files, 2)
         members[b]["data"] = members[a]["data"]
@@ -254,6 +266,7 @@ def run(case: dict, ctx) -> dict:
     kinds = [m["kind"] for m in members]
     cnt["gzip_cases"] = int(gz)
     cnt["longname_members"] = sum(1 for m in members if m.get("longname"))
+    cnt["members_with_data_before_their_header"] = sum(1 for m in members if m.get("alias_of") is not None)
     cnt["members_with_pax_records"] = sum(1 for m in members if m.get("pax"))
     cnt["members_with_pax_size_record"] = sum(1 for m in members if any(k_ == "size" for k_, _ in m.get("pax") or []))
     cnt["inline_std_members"] = kinds.count("std")
